@@ -1301,7 +1301,7 @@ pub fn run(em: &mut Em, rng: &mut Rng) {
         rounds::<f64>(em, rng, 1700, 60, 40);
         rounds::<f32>(em, rng, 600, 40, 30);
     } else {
-        rounds::<f64>(em, rng, 52, 12, 12);
-        rounds::<f32>(em, rng, 22, 12, 12);
+        rounds::<f64>(em, rng, 80, 12, 12);
+        rounds::<f32>(em, rng, 36, 12, 12);
     }
 }
